@@ -12,10 +12,10 @@ RULE = ("hist cases: histories of add-plugin / remove-rule / has_rule / Debug / 
         "aliases/constraints, remove by own mark or alias, contains, iter, Debug). Oracle: final parse result equal in both histories; "
         "has_rule answers equal; Debug never panics; a removed rule is absent from iter. Non-trivial = a configuration call follows a parse; "
         "distinct = distinct histories.")
-ADD = list("nebmliatcfqhurHLpsxXS") + list("12345678") + ["g", "G"] 
+ADD = list("nebmliatcfqhurHLpsxXS") + list("12345678") + ["g", "G", "z", "z"]
 REM = list("nebmMsliEatxcfqhurHLpXSJ") + list("123458") + ["Z", "Z"]
 DOCS = ["xx a xx %% b", "*a* _b_ ~~c~~ `d`", "- a\n@@@\nb", "> q\n@@@", "# h\n\n    code\n\n```\nf\n```", "[a](u) ![b](v) <http://x.y> &amp; \\*", "a\nb  \nc", "<b>x</b>\n\n<div>\ny\n</div>",
-        "1. x\n2. y\n\n---\n\nt\n===", "[r]: /u\n\n[r] xx", "t <b>x</b> u <http://a.b> v &amp; w", "p *q <i>r</i>* s ![t](u) <x@y.z> end"]
+        "1. x\n2. y\n\n---\n\nt\n===", "~~old~~ H~2~O ~y~ ~~~z~~~", "a ~~b~~ c ~d~ e", "[r]: /u\n\n[r] xx", "t <b>x</b> u <http://a.b> v &amp; w", "p *q <i>r</i>* s ![t](u) <x@y.z> end"]
 
 
 def gen_history(rng):
@@ -91,6 +91,18 @@ def cases(rng, tier, Case):
         for part in pat.split(";"):
             ops.append(("P", probe2) if part == "P" else ("D", "") if part == "D" else (part[0], part[1:]))
         ops += [("?", "axml"), ("D", ""), ("P", probe2 + "\n\n# h\n\n- i")]
+        erased = [x for i, x in enumerate(ops) if x[0] != "P" or i == len(ops) - 1]
+        g = script(ops)
+        res.append(Case("hist 100 R %s" % g, "full", {"g": g, "role": "full"}))
+        res.append(Case("hist 100 R %s" % script(erased), "erased", {"g": g, "role": "erased"}))
+    # a second pair length for a marker that already has one, added after a parse in which that marker paired up (seed C08-9:
+    # a table built lazily at the first matched pair and not reset by emph_pair::add_with)
+    tilde = "~~old~~ H~2~O ~y~ ~~~z~~~ *a* **b**"
+    for pat in ("+Cs;P;+z;P", "+s;+p;P;+z;P", "+Cs;P;+z;P;-s;P", "+z;+p;P;+s;P", "+Csz;P;-s;P;+s;P", "+C;P;+s;P;+z;P", "+Cz;P;+s;P", "+nebp;+s;P;+z;+m;P"):
+        ops = []
+        for part in pat.split(";"):
+            ops.append(("P", tilde) if part == "P" else (part[0], part[1:]))
+        ops += [("?", "sm"), ("D", ""), ("P", tilde + "\n\nx ~~s~~ ~t~")]
         erased = [x for i, x in enumerate(ops) if x[0] != "P" or i == len(ops) - 1]
         g = script(ops)
         res.append(Case("hist 100 R %s" % g, "full", {"g": g, "role": "full"}))
